@@ -18,8 +18,10 @@ LDFLAGS := $(SAN)
 endif
 ifeq ($(BUILD),sancov)
 CXX := clang++
-CXXFLAGS := -std=c++14 -O1 -g1 -fsanitize-coverage=trace-pc-guard,trace-loads,trace-stores -w
-LDFLAGS :=
+CXXFLAGS := -std=c++14 -O1 -g1 -gdwarf-4 -fsanitize-coverage=trace-pc-guard,trace-loads,trace-stores -w
+# the harness itself is not instrumented (only libtins is scheduled and monitored)
+ENGCXXFLAGS := -std=c++14 -O1 -g1 -gdwarf-4 -w
+LDFLAGS := -Wl,--wrap=__cxa_guard_acquire -Wl,--wrap=__cxa_guard_release -Wl,--wrap=__cxa_guard_abort
 endif
 ifeq ($(BUILD),plain)
 CXX := g++
@@ -49,7 +51,7 @@ $(B)/libtins.a: $(OBJS)
 	ar rcs $@ $(OBJS)
 
 $(B)/%: $(V)/engines/%.cpp $(B)/libtins.a $(wildcard $(V)/sim/*.hpp) $(wildcard $(V)/engines/*.inc)
-	$(CXX) $(CXXFLAGS) $(ENGFLAGS_$*) $(DEFS) $(INC) $< -o $@ $(B)/libtins.a $(LDFLAGS) $(LIBS) $(ENGLIBS_$*)
+	$(CXX) $(if $(ENGCXXFLAGS),$(ENGCXXFLAGS),$(CXXFLAGS)) $(ENGFLAGS_$*) $(DEFS) $(INC) $< -o $@ $(B)/libtins.a $(LDFLAGS) $(LIBS) $(ENGLIBS_$*)
 
 engine-%: $(B)/%
 	@true
